@@ -32,6 +32,21 @@ PROPS = {
              "the real VM runs with the call tracer, whose events are checked against that sequence, and the caller's arguments and named locals are compared "
              "before and after every call - the specification's FrameIsolation property evaluated on the implementation's own states.",
         note=_TRUST + "The VM hook (nsl/VM.py, NSL_VERIF=1) supplies enter/step/leave events; array/struct parameters written by a callee are outside the statement."),
+    "C06": dict(
+        claimed=True, level="model_checking",
+        technique="the emitted bytes are decoded, validated and executed by the TLA+ machine WasmBinary (reader actions + operand-stack validation + interpreter on exact values) inside TLC and compared with the real VM's result; wasmtime cross-checks the TLA+ engine",
+        text="Programs inside and just outside the backend's subset are compiled with the wasm option at both optimisation levels. Refusals are fine; every emitted "
+             "module becomes one behaviour of spec/WasmBinary.tla (ReadPreamble, ReadSection..., Finish, ValidateBody..., ExecCall...) which returns the value of each "
+             "call on exact i32 / f32-representable values; that value must equal the VM's, and the body must contain a counterpart for every arithmetic IR instruction "
+             "(nothing silently dropped). wasmtime runs the same calls; a disagreement with the TLA+ engine aborts the check as a machinery failure.",
+        note=_TRUST + "The TLA+ engine covers exactly the opcodes the backend can emit; results outside its exact domain are compared through wasmtime in single precision."),
+    "C07": dict(
+        claimed=True, level="model_checking",
+        technique="TLA+ decoder/validator WasmBinary run by TLC over the bytes of every emitted module (section framing with exact sizes, index spaces, exports, operand-stack type checking of every body); wasmtime's validator as independent cross-check of the model",
+        text="Every module emitted without an error for a structural family (1-4 functions, 0-6 parameters, alternating local types, constant magnitude classes) and "
+             "for seeded programs is read to the end by the reader actions of spec/WasmBinary.tla; the first failing action is the verdict. The model's verdict is "
+             "cross-checked against wasmtime on every module, in both directions.",
+        note=_TRUST + "Sections and opcodes the backend never emits are outside the model ('unmodelled', judged by wasmtime alone)."),
     "C08": dict(
         claimed=True, level="model_checking",
         technique="TLA+ operator-precedence machine (NslParse) enumerated exhaustively by TLC; every enumerated case replayed into the real parser/compiler/VM (spec->code conformance)",
@@ -97,6 +112,14 @@ PROPS = {
              "each history with prescribed results and globals; the driver replays them on the real VMs and compares results and all globals of both VMs after "
              "every operation.",
         note=_TRUST + "One library program (scalar, array, struct, vector globals; aggregate locals; recursion); host values are deep-copied by the driver."),
+    "C19": dict(
+        claimed=True, level="model_checking",
+        technique="TLA+ LEB128 decoders/encoders on 32-bit bit patterns (round-trip invariants checked by TLC over all boundary windows); every byte string the real writer produces is decoded by the TLA+ standard decoder (trace validation of writer output), modules built with the writer API are read by the TLA+ reader WasmBinary",
+        text="TLC enumerates the bit patterns around every 7-bit-group and sign boundary (thorough: also every value below 2^16), checks that the standard decoders invert "
+             "the reference encoders, and the driver writes each value with the real writer as an unsigned number and as an i32.const immediate; spec/Leb128Trace.tla "
+             "decodes the produced bytes and requires the written value back. Names and sizes: modules built with the writer API (Unicode names, 127/128-byte names, "
+             "bodies and sections across the 128- and 16384-byte boundaries, 127-130 functions) must be read back by WasmBinary with the same names.",
+        note=_TRUST + "Values are compared as 32-bit patterns because TLC integers are 32-bit signed."),
     "C20": dict(
         claimed=True, level="model_checking",
         technique="TLA+ specification SourceMap (offset->line, line starts, range strings, hulls, token layout) enumerated exhaustively by TLC with round-trip and two-formulation invariants; every case replayed at nsl.ast.SourceMapping/Location and through the real parser, UpdateLocations and the redeclaration diagnostic (spec->code conformance)",
